@@ -181,6 +181,16 @@ def tagFrames : List (List Bytes) → List Bytes → Option (List (Nat × Bytes)
     | none => none
     | some i => (tagFrames (lists.modify i List.tail) fs).map fun r => (i, f) :: r
 
+/-- tag every frame of the stream with a sender that still has it AHEAD in its list (everything of that sender
+up to and including it is used up): `some` iff the stream restricted to each sender is a subsequence of its
+list, in order, and no frame is foreign or duplicated -/
+def tagFramesSub : List (List Bytes) → List Bytes → Option (List (Nat × Bytes))
+  | _, [] => some []
+  | lists, f :: fs =>
+    match lists.findIdx? (fun l => l.contains f) with
+    | none => none
+    | some i => (tagFramesSub (lists.modify i fun l => (l.dropWhile (· != f)).tail) fs).map fun r => (i, f) :: r
+
 /-- the stream is an interleaving of the senders' lists: every frame is the next frame of some sender and
 the stream restricted to each sender is that sender's list -/
 def isInterleaving (lists : List (List Bytes)) (frames : List Bytes) : Bool :=
